@@ -93,15 +93,27 @@ func newWSHandler(host string, dial dialFunc, conn gkm.Gauge) http.Handler {
 
 		out.SetReadDeadline(time.Time{})
 
+		// When one side finishes sending, pass the end of its stream on
+		// and keep the other direction running until it finishes as well.
 		errc := make(chan error, 2)
-		cp := func(dst io.Writer, src io.Reader) {
+		cp := func(dst, src net.Conn) {
 			_, err := io.Copy(dst, src)
+			if err == nil {
+				if cw, ok := dst.(interface{ CloseWrite() error }); ok && cw.CloseWrite() == nil {
+					// half-closed
+				} else {
+					dst.Close()
+				}
+			}
 			errc <- err
 		}
 
 		go cp(out, in)
 		go cp(in, out)
 		err = <-errc
+		if err == nil {
+			err = <-errc
+		}
 		if err != nil && err != io.EOF {
 			log.Printf("[INFO] WS error for %s. %s", r.URL, err)
 		}
